@@ -1700,6 +1700,11 @@ func TestVerif(t *testing.T) {
 	}
 
 	defer res.Write(env.Out) // also when the run is cut short below
+	// real threads first: MapIterator's check-then-park window (see stress_test.go). Its findings are written
+	// out at once, and again after every phase below: a crash of the library inside a bubble ("fatal error:
+	// sync: unlock of unlocked mutex" cannot be recovered) must not take what was already found with it.
+	stressMapIter(t, res, env)
+	res.Write(env.Out)
 	for _, f := range vlib.CorpusFiles(env.Corpus, ".json") {
 		b, err := os.ReadFile(f)
 		if err != nil {
@@ -1708,6 +1713,9 @@ func TestVerif(t *testing.T) {
 		var sc Scenario
 		if json.Unmarshal(b, &sc) != nil {
 			t.Fatalf("bad corpus file %s", f)
+		}
+		if sc.Kind == "stress" {
+			continue // real-threads configurations are not bubble scenarios
 		}
 		if nFatal >= maxFatal {
 			break
@@ -1778,6 +1786,7 @@ func TestVerif(t *testing.T) {
 			}
 		}
 	}
+	res.Write(env.Out)
 	dir := directed()
 	for i := range dir {
 		if nFatal >= maxFatal {
@@ -1796,6 +1805,7 @@ func TestVerif(t *testing.T) {
 		o := check(t, &idle[i], nil, ms, res, env)
 		res.Case(idle[i].key(), nontrivial(&idle[i], o) || o.Stats["results"] >= 2, nil)
 	}
+	res.Write(env.Out)
 	r := vlib.NewRand(env.Seed)
 	deadline := env.Deadline()
 	big := env.Thorough() || env.Deep
@@ -1868,6 +1878,4 @@ func TestVerif(t *testing.T) {
 		}
 		res.Case(sc.key(), nontrivial(sc, o), sample)
 	}
-	// real threads: MapIterator's check-then-park window (see stress_test.go)
-	stressMapIter(t, res, env)
 }
